@@ -205,12 +205,17 @@ def bi_getattr(E, args, kwargs, node):
     E.trace.append(('getattr', repr(obj), name.v))
     if len(args) == 3:
         try:
-            return ops.getattr_(E, obj, name.v)
+            r = ops.getattr_(E, obj, name.v)
         except PyRaise as pr:
             if E.exc_matches(pr.exc, ['AttributeError']):
+                E.trace.append(('attr-read', obj, name.v, args[2]))
                 return args[2]
             raise
-    return ops.getattr_(E, obj, name.v)
+        E.trace.append(('attr-read', obj, name.v, r))
+        return r
+    r = ops.getattr_(E, obj, name.v)
+    E.trace.append(('attr-read', obj, name.v, r))
+    return r
 
 
 def bi_hasattr(E, args, kwargs, node):
@@ -287,6 +292,10 @@ def typeof_is(E, tv, other):
         return z3.Bool('typeis_%s_%s' % (name, key))
     r = E.decide(2, 'type(%s) is %s' % (name, key)) == 0
     E.tfacts[fk] = r
+    if key == 'NoneType' and isinstance(v, VO):
+        # NoneType has exactly one instance
+        isnone = v.t == z3.Const('None', Val)
+        E.assume(isnone if r else z3.Not(isnone))
     if r:
         E.tfacts[(name, key)] = True
         if key == 'tuple' and isinstance(v, VO):
